@@ -467,53 +467,65 @@ func parentMain(p *Prop, tier string) int {
 
 	// 1. pinned witnesses of known findings
 	known := loadKnown(env, p.ID)
+	// they run in their own workers, concurrently with the shards (at most 4 at a time)
+	var pwg sync.WaitGroup
+	psem := make(chan struct{}, 4)
 	for i, kf := range known {
 		if len(kf.Witness) == 0 {
 			continue
 		}
-		var w witnessRef
-		if json.Unmarshal(kf.Witness, &w) != nil {
-			continue
-		}
-		if w.File != "" {
-			if b, err := os.ReadFile(filepath.Join(env.VerifDir, w.File)); err == nil {
-				var v Violation
-				if json.Unmarshal(b, &v) == nil {
-					w.Detail, w.Tier, w.Seed, w.Idx = v.Detail, v.Tier, v.Seed, v.Idx
+		i, kf := i, kf
+		pwg.Add(1)
+		go func() {
+			defer pwg.Done()
+			psem <- struct{}{}
+			defer func() { <-psem }()
+			var w witnessRef
+			if json.Unmarshal(kf.Witness, &w) != nil {
+				return
+			}
+			if w.File != "" {
+				if b, err := os.ReadFile(filepath.Join(env.VerifDir, w.File)); err == nil {
+					var v Violation
+					if json.Unmarshal(b, &v) == nil {
+						w.Detail, w.Tier, w.Seed, w.Idx = v.Detail, v.Tier, v.Seed, v.Idx
+					}
 				}
 			}
-		}
-		out := filepath.Join(dir, fmt.Sprintf("pinned.%d", i))
-		var res childResult
-		wtier := w.Tier
-		if wtier == "" {
-			wtier = tier
-		}
-		if len(w.Detail) > 0 && p.Replay != nil {
-			df := out + ".detail"
-			_ = os.WriteFile(df, w.Detail, 0o644)
-			res = runChild(p, env, nil, out, out+".status", out+".stderr", "--tier", wtier, "--pinned", "--detail", df)
-		} else {
-			res = runChild(p, env, []string{"VERIF_SEED=" + strconv.FormatInt(w.Seed, 10)}, out, out+".status", out+".stderr",
-				"--tier", wtier, "--pinned", "--only", strconv.Itoa(w.Idx))
-		}
-		cps, _ := readCheckpoints(out, 0)
-		for _, cp := range cps {
-			// pinned runs contribute violations only (not coverage)
-			for _, v := range cp.Viol {
-				v.Pinned = true
-				agg.Viol = append(agg.Viol, v)
+			out := filepath.Join(dir, fmt.Sprintf("pinned.%d", i))
+			var res childResult
+			wtier := w.Tier
+			if wtier == "" {
+				wtier = tier
 			}
-		}
-		if !res.finished && res.exit != 4 {
-			// the witness kills the worker: that is the finding itself
-			class, frame := fatalClass(res.stderr)
-			key := "fatal/" + frame + "/" + class
-			if res.hung == "cpu" {
-				key = "hang/" + frame + "/cpu"
+			if len(w.Detail) > 0 && p.Replay != nil {
+				df := out + ".detail"
+				_ = os.WriteFile(df, w.Detail, 0o644)
+				res = runChild(p, env, nil, out, out+".status", out+".stderr", "--tier", wtier, "--pinned", "--detail", df)
+			} else {
+				res = runChild(p, env, []string{"VERIF_SEED=" + strconv.FormatInt(w.Seed, 10)}, out, out+".status", out+".stderr",
+					"--tier", wtier, "--pinned", "--only", strconv.Itoa(w.Idx))
 			}
-			agg.Viol = append(agg.Viol, Violation{Property: p.ID, Key: key, What: "pinned witness kills the worker", Pinned: true, Tier: wtier, Seed: w.Seed, Idx: w.Idx})
-		}
+			cps, _ := readCheckpoints(out, 0)
+			mu.Lock()
+			defer mu.Unlock()
+			for _, cp := range cps {
+				// pinned runs contribute violations only (not coverage)
+				for _, v := range cp.Viol {
+					v.Pinned = true
+					agg.Viol = append(agg.Viol, v)
+				}
+			}
+			if !res.finished && res.exit != 4 {
+				// the witness kills the worker: that is the finding itself
+				class, frame := fatalClass(res.stderr)
+				key := "fatal/" + frame + "/" + class
+				if res.hung == "cpu" {
+					key = "hang/" + frame + "/cpu"
+				}
+				agg.Viol = append(agg.Viol, Violation{Property: p.ID, Key: key, What: "pinned witness kills the worker", Pinned: true, Tier: wtier, Seed: w.Seed, Idx: w.Idx})
+			}
+		}()
 	}
 
 	// 2. the case list, sharded over children
@@ -531,6 +543,7 @@ func parentMain(p *Prop, tier string) int {
 		go func() { defer wg.Done(); s.run() }()
 	}
 	wg.Wait()
+	pwg.Wait()
 
 	if p.Finalize != nil {
 		p.Finalize(agg)
